@@ -871,7 +871,8 @@ def make_check():
                  "float chord distance vs threshold is validated with a 1e-7 margin, not proved"],
         assumptions=["both max_interval and max_distance are given; datasets are non-empty and uniquely labelled on the shared dimension",
                      "times are datetime64[ns] without NaT; start/end are whole microseconds",
-                     "max_interval has microsecond resolution (datetime.timedelta); numbers, unit strings and timedelta objects"])
+                     "max_interval has microsecond resolution (Python timedelta); it is given as number, unit string or timedelta object",
+                     "lat/lon share their first dimension with time (docstring); (scnpos, scnline) storage only on the direct path"])
 
 
 def main():
